@@ -376,6 +376,40 @@ func randomSystemHistory(r *rand.Rand, nops int) []SysAct {
 		}
 		h = append(h, SysAct{A: "Plain", C: outer}, SysAct{A: "Frag", F: 1, C: outer})
 	}
+	if r.Intn(4) == 0 {
+		// placeholders: a statement that renders nothing yet is made an operand (of a List, which has no tokens of its
+		// own, or of a call), the whole is observed, THEN the placeholder is filled and the whole is observed again
+		p := newCell()
+		h = append(h, SysAct{A: "NewNull"})
+		o := newCell()
+		h = append(h, SysAct{A: "NewId", N: fresh()})
+		addReach(o, p)
+		h = append(h, SysAct{A: "AppGroup", C: o, D: r.Intn(2), N: []string{"list", "list", "call"}[r.Intn(3)], Refs: []int{p}})
+		if r.Intn(2) == 0 {
+			h = append(h, SysAct{A: "AppDot", C: o, N: fresh()})
+		}
+		obsv := func() {
+			switch r.Intn(3) {
+			case 0:
+				h = append(h, SysAct{A: "Plain", C: o})
+			case 1:
+				h = append(h, SysAct{A: "Frag", F: 1, C: o})
+			default:
+				h = append(h, SysAct{A: "Plain", C: o}, SysAct{A: "Frag", F: 1 + r.Intn(nfiles), C: o})
+			}
+		}
+		obsv()
+		switch r.Intn(3) {
+		case 0:
+			h = append(h, SysAct{A: "AppId", C: p, N: fresh()})
+		case 1:
+			h = append(h, SysAct{A: "AppDot", C: p, N: fresh()})
+		default:
+			q := sysPaths[r.Intn(len(sysPaths))]
+			h = append(h, SysAct{A: "AppQual", C: p, P: q, N: sysSym(q)})
+		}
+		obsv()
+	}
 	for len(h) <= nops {
 		nc := len(cells)
 		f := 1 + r.Intn(nfiles)
